@@ -48,8 +48,10 @@ Theorem c02_quiet_calls_concurrently : forall (ps : list (list mstep * N)) (sche
 Proof. exact quiet_calls_keep_log. Qed.
 Print Assumptions c02_quiet_calls_concurrently.
 
-(* a write capability aimed at a thread id that does not exist fails before it appends *)
+(* a write capability aimed at a thread id that does not exist fails before it appends (`rest`:
+   whatever the same call would have done afterwards, e.g. the run_spawned append of a POST) *)
 Theorem c02_unknown_thread_adds_nothing : forall st c t ar rest,
+  skip_call rest = [] ->
   s_mu st = None -> s_next st c = None -> s_side st c = None -> cstream c (s_log st) = [] ->
   s_log (exec (MTarget c :: locked_append t ar ++ rest) st) = s_log st.
 Proof. exact unknown_thread_append_silent. Qed.
